@@ -107,7 +107,7 @@ def contracts():
         }), //@C05.challenge_hooks_of_the_configured_type_get_the_proof,C10.env_identifier_over_certificate_over_daemon
         r is Err ==> final(w).fs.events == old(w).fs.events || exists|e: FsEvent| final(w).fs.events == old(w).fs.events.push(e),
 """, rewrites=[("T-MAP", r"env: HashMap::new\(\)", "env: crate::venv::new_map()")] + ENV_IDIOMS,
-        at=[("before_stmt", "Ok((hook_data, hook_type.1))", 1, """
+        at=[("before_tail", None, 1, """
         proof {
             let p = proc_env(); let c = envmap(self.env); let i = envmap(identifier.env);
             assert(p.union_prefer_right(p.union_prefer_right(Map::<Seq<char>, Seq<char>>::empty()).union_prefer_right(c)).union_prefer_right(i)
@@ -128,7 +128,7 @@ def contracts():
             && final(w).fs.events == old(w).fs.events.push(FsEvent::Hook { ty: crate::hooks::hook_type_id(HookType::PostOperation), data: crate::hooks::hook_data_id(d) }), //@C07.post_operation_data_reports_status,C10.post_operation_hook_data
 """, rewrites=[("T-MAP", r"env: HashMap::new\(\)", "env: crate::venv::new_map()"),
                ("T-ITER", r"self\s*\.identifiers\s*\.iter\(\)\s*\.map\(\|d\| d\.value\.to_owned\(\)\)\s*\.collect::<Vec<String>>\(\)", "crate::certificate::collect_values(&self.identifiers)")],
-        at=[("before_stmt", "Ok(())", 1, """
+        at=[("before_tail", None, 1, """
         proof {
             let p = proc_env(); let c = envmap(self.env);
             assert(p.union_prefer_right(Map::<Seq<char>, Seq<char>>::empty()).union_prefer_right(c) =~= p.union_prefer_right(c));
